@@ -10,6 +10,7 @@ use super::*;
 use alloc::{vec, vec::Vec}; // for generated concrete-playback tests (no_std crate)
 use crate::num::PosUsize;
 use jaq_core::ValT as _;
+use num_bigint::BigInt;
 
 // ---------------------------------------------------------------------------
 // Independent position model over mathematical integers (i128 holds every
@@ -206,4 +207,32 @@ fn c10_range_int_model() {
     core::mem::forget(r);
     core::mem::forget(s);
     core::mem::forget(e);
+}
+
+/// A big integer of up to 128 bits, built without big-number arithmetic.
+fn any_bigint() -> (BigInt, i128) {
+    let v: i128 = kani::any();
+    (BigInt::from(v), v)
+}
+
+//@ tier: quick
+//@ funcs: Num::as_pos_usize (BigInt arm), BigInt::magnitude, BigUint::to_usize, BigInt::sign
+//@ bounds: every big integer representable in 128 bits (incl. zero, which un-normalised arithmetic can produce as a BigInt)
+//@ asserts: Some(p) exactly when |v| <= usize::MAX, with value preserved and the representation invariant (negative => magnitude >= 1) established -- a big-integer zero is the position 0, not "0 from the end"
+#[kani::proof]
+#[kani::unwind(6)]
+fn c10_as_pos_usize_bigint() {
+    let (b, v) = any_bigint();
+    let n = Num::BigInt(b.into());
+    match n.as_pos_usize() {
+        Some(p) => {
+            assert!(m_val(p) == v);
+            assert!(p.0 || p.1 >= 1);
+        }
+        None => assert!(v > usize::MAX as i128 || v < -(usize::MAX as i128)),
+    }
+    kani::cover!(v == 0);
+    kani::cover!(v == -(usize::MAX as i128));
+    kani::cover!(v > usize::MAX as i128);
+    core::mem::forget(n);
 }
